@@ -339,7 +339,7 @@ CalcRel(t, names, st, mode, ev, last) ==
           THEN ev.rc # 0
      ELSE IF st.n = 0 THEN TRUE                                  \* no location: the tool turns to its standard input
      \* a failure needs a reason: an ignored token, a set --largest cannot cover, a feedback of words that are no locations
-     ELSE IF ev.rc # 0 THEN st.bad \/ (mode.m = "largest" /\ ~VSub(st.cs, VR(t.tcs))) \/ mode.m \in {"fbL", "fbH"}
+     ELSE IF ev.rc # 0 THEN st.bad \/ (mode.m = "largest" /\ (~st.det \/ ~VSub(st.cs, VR(t.tcs)))) \/ mode.m \in {"fbL", "fbH"}
      ELSE IF ~st.det THEN TRUE
      ELSE CASE mode.m = "set" ->
                  IF mode.single /\ fin.no THEN TRUE
